@@ -14,8 +14,8 @@ sub-operation -- the well-formedness invariant is evaluated:
   * bound names are unique (AST targets and Statement.bound_variable);
   * TestCase._type_registry == registry recomputed from (bound_variable, bound_type) of the statements, and
     every registered name is the assignment target of its statement;
-  * length: sizes are taken before and after every single insertion call issued by the insertion mutation
-    and every crossover; "grew beyond the limit" = post > chromosome_length and post > pre.
+  * length: sizes are taken before and after every insertion mutation (and every insert_random_statement call it
+    issues, to name the mechanism) and every crossover; "grew beyond the limit" = post > chromosome_length and post > pre.
 
 Nothing is checked inside private multi-step helpers of the factory.
 """
@@ -459,9 +459,9 @@ def floors(tier):
 
 
 def plan(tier, seed):
-    per_chunk = 14 if tier == "quick" else 150
-    specs = [{"name": "directed", "histories": 2}]
-    for part in range(15):
+    per_chunk = 19 if tier == "quick" else 200
+    specs = [{"name": "directed", "histories": 2, "sut": sut} for sut in SUTS]
+    for part in range(11):
         specs.append({"name": "random", "seed": seed, "part": part, "histories": per_chunk})
     return specs
 
@@ -676,6 +676,7 @@ class Monitor:
         self.limit = lambda: 0
         self._undo = []
         self.hook_calls = 0
+        self.insert_calls: list = []
 
     # ---- invariant evaluation --------------------------------------------------------------
     def evaluate(self, tcase, op: str, extra_cls=()):
@@ -741,6 +742,8 @@ class Monitor:
 
             def w(self, chromosome, *a, **k):
                 mon.stack.append(label)
+                if label == "mutate/insert":
+                    mon.insert_calls = []
                 pre = chromosome.size()
                 try:
                     ret = orig(self, chromosome, *a, **k)
@@ -751,6 +754,8 @@ class Monitor:
                 limit = mon.limit()
                 if label == "mutate/change" and post > limit and post > pre:
                     mon.ctx.anomaly("length:change-dependencies-grow-beyond-limit")
+                if label == "mutate/insert":
+                    mon.insertion_done(pre, post, chromosome.test_case)
                 mon.evaluate(chromosome.test_case, f"hook:{label}")
                 return ret
 
@@ -768,26 +773,42 @@ class Monitor:
 
     # ---- length rule -------------------------------------------------------------------------
     def insert_call(self, pre, post, tcase):
-        """One insert_random_statement call issued by the insertion mutation."""
-        limit = self.limit()
-        if pre < limit:
+        """One insert_random_statement call issued by the insertion mutation (judged when the mutation returns)."""
+        if pre < self.limit():
             self.ctx.cls("insert-call:under-limit")
-        if post > limit and post > pre:
-            case = self.case_info() if self.case_info else {}
-            case.update({"pre_size": pre, "post_size": post, "limit": limit, "code_after": _safe_code(tcase)})
-            if pre < limit:
-                self.ctx.witness(
-                    "length:insert-dependencies-overshoot",
-                    f"insertion mutation: one insert_random_statement call grew the test from {pre} (< limit {limit}) to {post} "
-                    f"statements: the call plus its dependency statements are added after the size test",
-                    case,
-                )
-            else:
-                self.ctx.witness(
-                    "length:insert-when-already-at-limit",
-                    f"insertion mutation issued an insertion although size {pre} >= limit {limit}; grew to {post}",
-                    case,
-                )
+        self.insert_calls.append((pre, post))
+
+    def insertion_done(self, pre0, post, tcase):
+        """The insertion mutation returned: did it leave the test longer than the limit, and by which mechanism?"""
+        limit = self.limit()
+        calls, self.insert_calls = self.insert_calls, []
+        if not (post > limit and post > pre0):
+            return
+        case = self.case_info() if self.case_info else {}
+        case.update({"size_before_insertion_mutation": pre0, "size_after": post, "limit": limit,
+                     "insert_calls_pre_post": calls, "code_after": _safe_code(tcase)})
+        growing = [(p, q) for p, q in calls if q > p and q > limit]
+        if growing and all(p < limit for p, q in growing):
+            p, q = growing[-1]
+            self.ctx.witness(
+                "length:insert-dependencies-overshoot",
+                f"insertion mutation left {post} statements (limit {limit}, {pre0} before): an insert_random_statement call issued at "
+                f"size {p} < {limit} added the call plus its dependency statements and reached {q}; the size is only tested before a call",
+                case,
+            )
+        elif growing:
+            p, q = next((p, q) for p, q in growing if p >= limit)
+            self.ctx.witness(
+                "length:insert-when-already-at-limit",
+                f"insertion mutation issued an insertion although size {p} >= limit {limit}; grew to {q} (final {post})",
+                case,
+            )
+        else:
+            self.ctx.witness(
+                "length:insert-grew-beyond-limit:unattributed",
+                f"insertion mutation grew the test from {pre0} to {post} > limit {limit} without a growing insert_random_statement call",
+                case,
+            )
 
     def crossover(self, pre, post, tcase, how):
         limit = self.limit()
@@ -1156,6 +1177,12 @@ def run_history(ctx, world, mon, hist_seed, forced_cfg=None, round_robin=False):
         for c in checked:
             mon.evaluate(c.test_case, f"op:{op}", extra)
         ctx.cls(f"len:L={L}")
+        if mon.reported:
+            # quarantine: a malformed individual is replaced so that later operations are not blamed for it
+            for j, member in enumerate(pop):
+                if any(member is c for c in checked):
+                    pop[j] = fresh()
+            continue
         # keep the population alive
         if pop[a].size() == 0 and rng.random() < 0.7:
             pop[a] = fresh()
@@ -1179,6 +1206,9 @@ def run_chunk(spec, ctx):
             k = 0
             for sut in SUTS:
                 for L in LENGTHS:
+                    if spec.get("sut") not in (None, sut):
+                        k += spec["histories"]
+                        continue
                     for rep in range(spec["histories"]):
                         k += 1
                         run_history(ctx, world, mon, 15_000_000 + k,
